@@ -120,6 +120,7 @@ func New(tape *Tape) *Sim {
 	s := &Sim{Tape: tape, MaxSteps: 20000, Horizon: 4 * time.Hour, SchedHash: 1469598103934665603}
 	s.wake = make(chan struct{}, 4096)
 	s.start = time.Now()
+	pendingWriters = nil
 	cur = s
 	return s
 }
